@@ -8,13 +8,13 @@ CORR = (" Correspondence: generated operation plans (all allocation flavours, Al
         "and compared on the fields relevant to this property; model-independent oracles on the real crate produce the replay.")
 CLAIMS = {
     "C01": dict(
-        text="Theorems (Lean, all histories by invariant): ArenaWF is established by the constructors and preserved by every "
-             "allocation flavour, dealloc and reset, for every allocator answer list satisfying the allocator contract; every "
-             "successful allocation returns a non-null block inside the used part [finger, footer) of a held chunk (so inside held "
-             "memory and outside the footer) and disjoint from every region that was in a used part before (hence from every live "
-             "block); zero-sized requests move nothing; no assertion/wrap/UB outcome is reachable." + CORR +
-             " Partial: the in-place paths of grow/shrink and the rewind of failed initialisers are covered by the "
-             "correspondence and oracles (interval map, canaries); their Lean frame lemmas are in Props/C12 and C11 as far as proved.",
+        text="Main theorem (Lean, all histories, by invariant + induction over operation lists): from any arena a constructor returned, after "
+             "ANY admissible history over the full operation alphabet (all allocation flavours, Allocator-trait allocate/deallocate/grow/"
+             "grow_zeroed/shrink on any live block in any order, fallible initialisers that succeed or fail after allocating, keeping and "
+             "releasing blocks and acquiring chunks in the same arena, reset, limit changes), for every allocator answer list satisfying the "
+             "allocator contract: the arena is well-formed, every live block is non-null, MIN_ALIGN-aligned and (if non-empty) inside the used "
+             "part [finger, footer) of a held chunk (hence inside held memory, outside the footer), live blocks are pairwise disjoint, and no "
+             "assertion/wrap/UB outcome is reachable. Per-call corollaries: placement, zero-sized requests move nothing." + CORR,
         note=BASE_NOTE),
     "C02": dict(
         text="Theorems: the arena's own memory writes are exactly the copies of grow/shrink and grow_zeroed's zero fill (recorded as "
@@ -28,11 +28,12 @@ CLAIMS = {
         text="Theorems: the initialiser is not reached when the reservation fails (arena unchanged, failure returned); a failed "
              "alloc_try_with/try_alloc_try_with whose initialiser allocated nothing returns the error and leaves the arena exactly as on "
              "entry (same chunk: finger restored incl. padding) or as on entry plus the empty chunk acquired for the value (finger at its "
-             "footer), and the same layout requested next is served by the fast path at the same address with no allocator traffic; on "
-             "success nothing is rewound; the try-fill loop calls the closure for 0..=k and stops at the first error." + CORR +
-             " Partial: 'error value delivered exactly once' and 'blocks the initialiser kept stay intact' are checked by oracles on the "
-             "real crate (drop-counting error tokens, canaries on kept blocks), the slice try-fill reuse clause by the residue oracle; the "
-             "model proves the rewind is safe only for initialisers that allocate nothing.",
+             "footer), and the same layout requested next is served by the fast path at the same address with no allocator traffic; for an "
+             "initialiser that allocated, kept and released blocks (even acquired chunks) before failing, every block live on entry and every "
+             "kept block is still in a used part, pairwise disjoint, whether or not the rewind took place (inner_blocks_kept: the rewind is "
+             "safe in general); on success nothing is rewound; the try-fill loop calls the closure for 0..=k and stops at the first error." + CORR +
+             " Partial: 'error value delivered exactly once' is checked by an oracle on the real crate (drop-counting error tokens), and the "
+             "slice try-fill reuse clause by the residue oracle (its Lean statement is not proved yet).",
         note=BASE_NOTE),
     "C12": dict(
         text="Theorems: for every live block and arbitrary old/new layouts (different alignments, zero sizes) grow and shrink return a block "
